@@ -79,6 +79,12 @@ def programs(tier):
             out.append((f"s:shared-body:{'>'.join(sel)}", "shape/shared-body-model/separate-operations", gen.base_doc({"FormModel": form}, paths=paths), {}, {"kind": "shape"}))
             one = {"/p": {"post": {"operationId": "sendAny", "requestBody": {"required": True, "content": {m: {"schema": mref} for m in sel}}, "responses": ok204}}}
             out.append((f"s:shared-body-one-op:{'>'.join(sel)}", "shape/shared-body-model/one-operation", gen.base_doc({"FormModel": form}, paths=one), {}, {"kind": "shape"}))
+    # classes whose snake-case name is a builtin / keyword-like word (module format_, type_, ...), used by a model and by parameters
+    shapes["builtin-like-class-names"] = {
+        "Format": {"type": "string", "enum": ["json", "xml"]}, "Type": {"type": "integer", "enum": [1, 2]}, "Filter": {"type": "string", "enum": ["on", "off"], "default": "on"},
+        "Range": {"type": "object", "properties": {"lo": {"type": "integer"}}},
+        "List": {"type": "object", "properties": {"format": ref("Format"), "type": ref("Type"), "filter": ref("Filter"), "range": ref("Range"),
+                                                   "formats": {"type": "array", "items": ref("Format")}}}}
     for name, comps in shapes.items():
         for lit in (False, True):
             out.append((f"s:{name}{'|lit' if lit else ''}", f"shape/{name}" + ("/lit" if lit else ""), gen.base_doc(comps), {"literal_enums": lit}, {"kind": "shape"}))
